@@ -883,7 +883,7 @@ func c05check(c *ctx, ref *c05ref, cases []c05case) {
 				continue
 			}
 			// too slow, or the exchange ran out of time before the stall point because the machine was slow
-			if o.elapsed > wantTOf(cs)+c05Slack || cs.k >= ref.total-1 || !c05reached(ref, cs, o) {
+			if o.elapsed > wantTOf(cs)+c05Slack || cs.k >= ref.total || (cs.kind == "rp" && cs.k == ref.total-1) || !c05reached(ref, cs, o) {
 				again = append(again, i)
 			}
 		}
@@ -899,7 +899,7 @@ func c05check(c *ctx, ref *c05ref, cases []c05case) {
 		runAll(again)
 		for _, i := range again {
 			// judged on the best run; a different outcome class in a re-run is kept for the oracle
-			if obs[i].class == prev[i].class && obs[i].elapsed > prev[i].elapsed && cases[i].k < ref.total-1 {
+			if obs[i].class == prev[i].class && obs[i].elapsed > prev[i].elapsed && c05reached(ref, cases[i], obs[i]) == c05reached(ref, cases[i], prev[i]) {
 				obs[i] = prev[i]
 			}
 		}
